@@ -137,7 +137,7 @@ func (pnf *PrevNextFinder) FindOutlink(root *html.Node, pageURL *nurl.URL, findN
 		}
 
 		// Make sure the href is related with current page
-		if !stringutil.HasPrefixIgnoreCase(linkHref, allowedPrefix) {
+		if len(linkHref) < lenPrefix || !strings.EqualFold(linkHref[:lenPrefix], allowedPrefix) {
 			pnf.appendDebugStrForLink(link, "ignored: not prefix")
 			continue
 		}
